@@ -111,6 +111,11 @@ func C04(w *sim.World, in *Info) (vs []V, antecedent bool) {
 	}
 	antecedent = true
 	src := in.Mb
+	if in.Mh != nil && in.Mh.Reply != nil && in.Mh.Reply.Status == 304 {
+		// a 304 confirmed the stored representation for the request that
+		// carried the validation: that request's values select the variant now
+		src = in.Mh
+	}
 	if src == nil {
 		return nil, true
 	}
